@@ -337,7 +337,7 @@ def fingerprints():
         def rec(body, prefix):
             for n in body:
                 if isinstance(n, ast.FunctionDef):
-                    fp[f"{prefix}{n.name}"] = hashlib.sha256(ast.dump(n).encode()).hexdigest()[:16]
+                    fp[f"{prefix}{n.name}"] = hashlib.sha256(ast.unparse(n).encode()).hexdigest()[:16]
                 elif isinstance(n, ast.ClassDef):
                     rec(n.body, f"{prefix}{n.name}.")
 
